@@ -60,6 +60,13 @@ def project_impl(impl):
     return (c, None)
 
 
+# Set by Property.run: the properties whose statements speak about the message of a failed run (C04: rendering returns,
+# C06: the message carries the text, C11: a non-empty message on stderr) compare the rendered text byte for byte; the
+# others compare which message is reported (kind + payload against the frame of the text), so that a change of wording
+# does not break the tie of properties that do not depend on it.
+EXACT_TEXT = False
+
+
 def agree_class_value(model, impl):
     """class+value projection; returns None when they agree, else a short description."""
     pm, pi = project_model(model), project_impl(impl)
@@ -79,7 +86,7 @@ def agree_class_value(model, impl):
             return "error message: the model reports %s(%r) but the text is %r" % (kind, payload[:60], text[:120])
         # ... and, where the model renders the message itself (Model/Message.v: failures reported by the top level,
         # all items UTF-8), the text byte for byte
-        if len(model) >= 4 and model[3] not in ("-", ""):
+        if EXACT_TEXT and len(model) >= 4 and model[3] not in ("-", ""):
             if model[3] == "PANIC" or unhx(model[3]) != text:
                 return "error text: model %r vs implementation %r" % (
                     model[3] if model[3] == "PANIC" else unhx(model[3])[:200], text[:200])
